@@ -104,7 +104,8 @@ type smRunner struct {
 	nx       int // seat of the tracked newcomer, -1 none
 	nxSeated bool
 	nxPassed bool
-	nxActive bool // the seat was still active when the newcomer joined (vacated since the last Next)
+	nxActive bool // the seat was still active when the newcomer joined AND it was occupied at the last successful Next (vacated since)
+	occAtNext []bool // occupancy at the last successful Next
 }
 
 func (r *smRunner) newSM(max int) {
@@ -114,6 +115,7 @@ func (r *smRunner) newSM(max int) {
 	r.dead = false
 	r.joins, r.leave = 0, 0
 	r.nx = -1
+	r.occAtNext = nil
 	r.o.Emit(fmt.Sprintf("sm new %d", max), smObs(r.m, "none", "-"))
 }
 
@@ -346,33 +348,47 @@ func (r *smRunner) monitor(f []string, pre, post *smSnap, err error, ret string)
 		}
 	}
 
+	if f[0] == "next" && err == nil {
+		r.occAtNext = make([]bool, len(post.seats))
+		for i, s := range post.seats {
+			r.occAtNext[i] = s.pid >= 0
+		}
+	}
 	// ---------- C08 newcomer timing ----------
 	switch {
 	case f[0] == "join" && err == nil:
 		got := int(atoi(ret))
 		if pre.dealer >= 0 && pre.bb >= 0 && between(pre.dealer, got, pre.bb, max) {
-			r.nx, r.nxSeated, r.nxPassed, r.nxActive = got, false, false, pre.seats[got].active
+			r.nx, r.nxSeated, r.nxPassed, r.nxActive = got, false, false, pre.seats[got].active && got < len(r.occAtNext) && r.occAtNext[got]
 		} else {
 			r.nx = -1
 		}
 	case f[0] == "seat" && err == nil && arg == r.nx && !r.nxSeated:
 		r.nxSeated = true
 	case f[0] == "next":
-		if r.nx >= 0 && r.nxSeated && err == nil {
+		if r.nx >= 0 && err == nil {
 			if between(pre.dealer, r.nx, post.dealer, max) {
 				r.nxPassed = true
 			}
-			if post.playable(r.nx) != r.nxPassed {
-				finding := ""
-				if r.nxActive {
-					finding = "D9"
+			if r.nxSeated {
+				if post.playable(r.nx) != r.nxPassed {
+					finding := ""
+					if r.nxActive {
+						finding = "D9"
+					} else if len(pre.playableSet()) < 2 {
+						finding = "D10"
+					} else if post.playable(r.nx) && !between(post.dealer, r.nx, post.bb, max) {
+						// the big blind landed in front of the newcomer's seat, which renewSeatStatus then activated
+						finding = "D4"
+					}
+					r.o.ViolateF("C08", "newcomer_timing", fmt.Sprintf("newcomer on seat %d (joined between dealer and big blind): playable=%v although the button has passed the seat=%v (dealer %d -> %d)",
+						r.nx, post.playable(r.nx), r.nxPassed, pre.dealer, post.dealer), finding)
+					r.nxPassed = true // reported once per newcomer
 				}
-				r.o.ViolateF("C08", "newcomer_timing", fmt.Sprintf("newcomer on seat %d (joined between dealer and big blind): playable=%v although the button has passed the seat=%v (dealer %d -> %d)",
-					r.nx, post.playable(r.nx), r.nxPassed, pre.dealer, post.dealer), finding)
-			}
-			r.o.Count("sm.newcomer_checked")
-			if r.nxPassed {
-				r.nx = -1
+				r.o.Count("sm.newcomer_checked")
+				if r.nxPassed {
+					r.nx = -1
+				}
 			}
 		} else if err != nil {
 			r.nx = -1
